@@ -20,8 +20,8 @@ func (r *RNG) Intn(n int) int {
 	return int(r.U64() % uint64(n))
 }
 
-func (r *RNG) Bool() bool       { return r.U64()&1 == 1 }
-func (r *RNG) P(pct int) bool   { return r.Intn(100) < pct }
+func (r *RNG) Bool() bool               { return r.U64()&1 == 1 }
+func (r *RNG) P(pct int) bool           { return r.Intn(100) < pct }
 func (r *RNG) Pick(xs ...string) string { return xs[r.Intn(len(xs))] }
 
 func (r *RNG) Bytes(n int) []byte {
